@@ -2,6 +2,7 @@ mod r#gen;
 mod node;
 mod runner;
 mod scenario;
+mod send;
 
 use {
   anyhow::{Result, anyhow},
@@ -92,6 +93,10 @@ fn main() -> Result<()> {
             let tag = arg_value(&args, "--tag").unwrap_or("s".into());
             r#gen::ledger(seed * 1000 + i, &format!("{tag}x{i}"), &cfg, &flags, &chain)
           }
+          "runes" => {
+            let tag = arg_value(&args, "--tag").unwrap_or("u".into());
+            r#gen::runes(seed * 1000 + i, &format!("{tag}x{i}"), blocks, &flags)
+          }
           "reorg" | "proto" | "sched" | "crash" => {
             let p = r#gen::ProtoCfg {
               ci: arg_value(&args, "--ci").map(|s| s.parse().unwrap()).unwrap_or(5000),
@@ -134,6 +139,15 @@ fn main() -> Result<()> {
       }
       Ok(())
     }
+    "send" => send::run(
+      &arg_value(&args, "--configs").ok_or_else(|| anyhow!("--configs"))?,
+      &arg_value(&args, "--out").ok_or_else(|| anyhow!("--out"))?,
+    ),
+    "send-gen" => send::r#gen(
+      arg_value(&args, "--seed").map(|s| s.parse().unwrap()).unwrap_or(0),
+      arg_value(&args, "--n").map(|s| s.parse().unwrap()).unwrap_or(100),
+      &arg_value(&args, "--out").ok_or_else(|| anyhow!("--out"))?,
+    ),
     "crash-child" => runner::crash_child(&args[1..]),
     other => Err(anyhow!("unknown command {other}")),
   }
